@@ -182,6 +182,23 @@ type encAfter struct {
 	TailTS   *encTagStruct
 }
 
+// encOdd: maps whose values are POINTERS to strings / wrapper values, maps with
+// non-string keys, and Taggables reached through a pointer or stored as map values.
+type encOdd struct {
+	Note string `class:"secret"`
+	MPS  map[string]*string
+	MPW  map[string]*wrapperspb.StringValue
+	MPB  map[string]*wrapperspb.BytesValue
+	MIP  map[string]interface{}
+	MMP  map[string]map[string]*string
+	IK   map[int]string
+	PT   *encTagMap
+	MT   map[string]encTagMap
+	MTS  map[string]*encTagStruct
+	SPT  []*encTagStruct
+	Tail string `class:"sensitive"`
+}
+
 // encBadTag has a tag pointer that cannot be resolved into a path.
 type encBadTag map[string]interface{}
 
@@ -607,6 +624,59 @@ func (g *encGen) after(where string) *encAfter {
 	return a
 }
 
+func (g *encGen) odd(where string) *encOdd {
+	o := &encOdd{}
+	ps := func(w string) *string { s := g.canary("redact", w); return &s }
+	if g.want() {
+		o.Note = g.canary(g.treatFor("secret", true), where+".Note")
+	}
+	if g.want() {
+		o.MPS = map[string]*string{"a": ps(where + ".MPS{}*"), "nil": nil}
+	}
+	if g.want() {
+		o.MPW = map[string]*wrapperspb.StringValue{"a": wrapperspb.String(g.canary("redact", where+".MPW{}*"))}
+	}
+	if g.want() {
+		o.MPB = map[string]*wrapperspb.BytesValue{"a": wrapperspb.Bytes([]byte(g.canary("redact", where+".MPB{}*")))}
+	}
+	if g.want() {
+		o.MIP = map[string]interface{}{"n": 1}
+		if g.want() {
+			o.MIP["ps"] = ps(where + ".MIP{}*string")
+		}
+		if g.want() {
+			o.MIP["pw"] = wrapperspb.String(g.canary("redact", where+".MIP{}*wrapperspb"))
+		}
+		if g.want() {
+			b := []byte(g.canary("redact", where+".MIP{}*[]byte"))
+			o.MIP["pb"] = &b
+		}
+	}
+	if g.want() {
+		o.MMP = map[string]map[string]*string{"m": {"in": ps(where + ".MMP{}{}*")}}
+	}
+	if g.want() {
+		o.IK = map[int]string{1: g.canary("redact", where+".IK{}"), 2: g.canary("redact", where+".IK{}")}
+	}
+	if g.want() {
+		t := g.tagMap(where + ".PT*")
+		o.PT = &t
+	}
+	if g.want() {
+		o.MT = map[string]encTagMap{"t": g.tagMap(where + ".MT{}")}
+	}
+	if g.want() {
+		o.MTS = map[string]*encTagStruct{"t": g.tagStruct(where + ".MTS{}")}
+	}
+	if g.want() {
+		o.SPT = []*encTagStruct{g.tagStruct(where + ".SPT[]")}
+	}
+	if g.want() {
+		o.Tail = g.canary(g.treatFor("sensitive", true), where+".Tail")
+	}
+	return o
+}
+
 // payload builds one top-level payload; kind names the top-level shape.
 func (g *encGen) payload(kind int, depth int) (interface{}, string) {
 	switch kind {
@@ -644,6 +714,13 @@ func (g *encGen) payload(kind int, depth int) (interface{}, string) {
 		return g.after("*after"), "*struct(taggable-struct-then-fields)"
 	case 16:
 		return g.tagDeep("tagdeep"), "*taggable-struct(nested-taggables)"
+	case 17:
+		return g.odd("*odd"), "*struct(pointer-valued-maps,taggables-in-maps)"
+	case 18:
+		t := g.tagMap("ptagmap")
+		return &t, "*taggable-map"
+	case 19:
+		return map[string]*string{"a": func() *string { s := g.canary("redact", "map[string]*string{}"); return &s }()}, "map[string]*string"
 	default:
 		return g.outer("*outer", depth), "*struct"
 	}
@@ -1024,7 +1101,7 @@ func runEncrypt(rc *RunCtx, prop string) {
 			d := &drawRec{tape: tp}
 			fill := []int{15, 40, 80}[tp.Choose(3, "fill")]
 			g := &encGen{d: d, exp: map[string]*leafExp{}, overrides: overrides, fill: fill, withIgnored: withIgnored}
-			kind := tp.Choose(17, "kind")
+			kind := tp.Choose(20, "kind")
 			depth := tp.Choose(3, "depth")
 			var payload interface{}
 			var top string
@@ -1368,7 +1445,7 @@ func runEncryptShared(rc *RunCtx) {
 	kv.w = newAead(kv.key, "key-1")
 	d := &drawRec{tape: tp}
 	g := &encGen{d: d, exp: map[string]*leafExp{}, overrides: nil, fill: 60}
-	kind := []int{0, 1, 3, 7, 9, 10, 11, 13, 13, 15, 16}[tp.Choose(11, "kind")]
+	kind := []int{0, 1, 3, 7, 9, 10, 11, 13, 13, 15, 16, 17, 18}[tp.Choose(13, "kind")]
 	payload, top := g.payload(kind, 1)
 	g2 := &encGen{d: &drawRec{rec: d.rec, replay: true}, exp: map[string]*leafExp{}, fill: 60}
 	snapshot, _ := g2.payload(kind, 1)
